@@ -116,6 +116,38 @@ PROPS['C09'] = {
     'level_text': 'bounded model checking of every interpreter action for every state: the aborts this property is about (shift by the width, MIN / -1, index arithmetic) occur at isolated values',
     'level_note': 'trusted: Kani/CBMC/solver soundness; Kani models the dev profile (overflow checks on), release behaviour is observed by replay',
 }
+PROPS['C19'] = {
+    'explanation': 'machine clauses only: VM::new() gives all-zero registers and memory except FLAGS=F000h, CS=FFFFh (memory by a symbolic '
+                   'probe address over the real zero-initialised 1 MiB object); executing a symbolically chosen instruction of every class on '
+                   'one machine leaves another machine untouched; the same instruction from equal register states yields equal states',
+    'bounds': 'loop-free; one instruction step',
+    'outside': 'byte-identical CLI output across processes (HashSet iteration order seeded by the OS inside CMDDriver::run), reuse of parser objects (the generated parse(&self) holds only immutable lexer tables: a typing argument), threads',
+    'backends': [(r'vm_new|twin', ['sat-arrays', 'z3']), (r'determinism', ['sat', ('z3', 'cvc5')]), (r'.*', [('z3', 'cvc5'), 'sat-arrays'])],
+    'timeout': {'quick': 600, 'thorough': 1800},
+    'assumptions': ['determinism is decided for register-only instructions (two arbitrary 1 MiB memories cannot be assumed equal cell by cell)'],
+    'level_text': 'bounded model checking of the machine clauses; the process-level clauses of the statement are not claimed',
+    'level_note': 'partial claim: fresh machine, isolation, determinism of a step; output reproducibility and parser reuse are outside (DESIGN.md C19)',
+}
+PROPS['C15'] = {
+    'explanation': 'fragment: the hand-written position arithmetic that the parsers\' error paths call (LexerHelper::get_newline_before / get_bounds composed as get_err_pos) '
+                   'never aborts and yields slice bounds inside the text, for every sorted newline list (<= 4 newlines), text length and position',
+    'bounds': '<= 4 newlines (the code distinguishes none / first / middle / last), text length < 4096, unwind 6 with unwinding assertions',
+    'outside': 'the generated LALRPOP parsers and the regex lexer (Kani cannot compile them), hence arbitrary byte sequences, time/memory proportionality, stack depth, non-UTF-8 files; LexerHelper::new (growing Vec over chars) is cut: the newline list is built directly',
+    'backends': [(r'.*', ['sat', 'z3'])],
+    'assumptions': ['newline list strictly increasing, inside the text; position <= length (LALRPOP reports end of input as length)'],
+    'level_text': 'bounded model checking of the position helpers only; the universal statement over arbitrary input text is NOT decided (see outside)',
+    'level_note': 'partial claim (fragment); a text without any newline is a known finding',
+}
+PROPS['C16'] = {
+    'explanation': 'fragment: for every sorted newline list (<= 4), text length and position inside the text, get_err_pos (as the driver composes it) returns the number, '
+                   'start and end of the line containing the position',
+    'bounds': '<= 4 newlines, text length < 4096, unwind 6',
+    'outside': 'the message texts, the `*pos + 5` of the stepping prompt and everything else inside CMDDriver::run; which source position each emitted instruction is mapped to (SourceMapper) is checked natively by the grammar engine, not here',
+    'backends': [(r'.*', ['sat', 'z3'])],
+    'assumptions': ['as C15'],
+    'level_text': 'bounded model checking of the position -> (line, start, end) function against the definition of "the line containing p"',
+    'level_note': 'partial claim; last line without trailing newline and positions on a newline are known findings',
+}
 
 NOT_APPLICABLE = {
     'C13': 'macro definition/use is regex::Regex + a recursive call of the generated parser on heap strings; Kani cannot compile the regex engine or the LALRPOP driver (compiler ICE), and a hand model of the substitution would not be the real code',
